@@ -13,6 +13,9 @@ CHECKS = {
     "C14": ("CrossHair symbolic execution of the real PartialModel merge code (symbolic field values, unbounded ints) against a reference merge; pure-Python pydantic build so values stay symbolic through validation",
             "trusted: CrossHair/z3 models of list/set/dict/str/int; pure-Python pydantic 1.10 sources == compiled build; construct() stand-ins; repr() in partial.py stubbed (message formatting); bounds: strings<=2, lists<=2, sets<=2, 2-3 operands, model family defined in the harness",
             "4/C14"),
+    "C18": ("CrossHair symbolic execution of the real DiffNode.compare/nodes/status/_type and DirDiff.get over symbolic directory-tree pairs against a changed-path-set oracle and an ordered-replay oracle",
+            "trusted: CrossHair/z3 models of dict/set/str/pathlib; stand-in node class re-using DiffNode's real functions (cross-checked natively; a subset of partitions runs the real pydantic model on the pure-Python pydantic build); bounds: universe a,b,a/x,a/y (thorough: +a/x/p,b/x), leaf strings length 1 (thorough 2)",
+            "4/C18"),
 }
 
 NA = {
